@@ -255,6 +255,21 @@ var deb822Impl = map[string]core.Adapter{
 		}
 		return "ok"
 	},
+	// law: a run of `count` blank lines (or comment-only blocks) between two paragraphs is just a
+	// separator, however long: two paragraphs come back.  args: count, kind (0 blank, 1 "#c" blocks)
+	"law-d822blank": func(a []string) string {
+		n, _ := strconv.Atoi(a[0])
+		sep := "\n"
+		if a[1] == "1" {
+			sep = "#c\n\n"
+		}
+		doc := "A: b\n" + strings.Repeat(sep, n) + "\nC: d\n"
+		ps, err := readAllParas(doc)
+		if err != nil || len(ps) != 2 || ps[0].Values["A"] != "b" || ps[1].Values["C"] != "d" {
+			return fmt.Sprintf("FAIL two paragraphs separated by %d x %q: %d paragraphs, error %v", n, sep, len(ps), err)
+		}
+		return "ok"
+	},
 	// law: read-write-read is the identity on what the reader produced; cycles are stable;
 	// no blank line inside a written paragraph
 	"law-d822stable": func(a []string) string {
@@ -439,7 +454,7 @@ func genLineSoup(r *core.Rand) string {
 			b.WriteString(" .\n")
 		case 7:
 			b.WriteString(r.Pick([]string{"no colon here\n", ": empty key\n", "A:\n", " \n", "\t\n", ".\n", "A: 1\nA: 2\n", "\u00a0x: 1\n", "K\u2003: v\u00a0\n",
-				"\r#foo: bar\n", "\v#k: v\n", "\u00a0#n: 1\n", "B:\n \rx\n", "B:\n \vy\n z\n", "B:\n \u00a0w\n", "\fC: d\n", "E:\n  \tindented\n", "#: x\n", " #cont\n"}))
+				"\ufeffSource: x\n", "\ufeff\ufeffA: 1\n", "\u200bB: 2\n", "A: 1\n\ufeffA: 2\n", "\ufeff#c\nA: b\n", "\r#foo: bar\n", "\v#k: v\n", "\u00a0#n: 1\n", "B:\n \rx\n", "B:\n \vy\n z\n", "B:\n \u00a0w\n", "\fC: d\n", "E:\n  \tindented\n", "#: x\n", " #cont\n"}))
 		}
 	}
 	s := b.String()
@@ -498,6 +513,12 @@ func boundaryDocs(g *core.G) [][3]string {
 
 func streamDeb822read(g *core.G) {
 	r := g.R
+	for _, n := range []int{1, 2, 1000, 100000, 3000000} {
+		g.Emit("law-d822blank", strconv.Itoa(n), "0")
+		if n <= 100000 {
+			g.Emit("law-d822blank", strconv.Itoa(n), "1")
+		}
+	}
 	for _, d := range boundaryDocs(g) {
 		g.Emit("d822", core.Hex(d[0]))
 		g.Emit("law-d822tail", core.Hex(d[0]), core.Hex(d[1]), d[2])
